@@ -330,7 +330,7 @@ specs["C09"]["jobs"] = specs["C09"]["jobs"] + [_m, _a]
 # C17 also after a bad frame: the valid frames that follow a rejected frame are still tiled (seeded C17-im1)
 import copy as _copy
 _bf = _copy.deepcopy([j for j in specs["C13"]["jobs"] if j["name"] == "bmc_badframes"][0])
-_bf["grid"]["CR"] = [1]; _bf["grid_thorough"] = _copy.deepcopy(_bf["grid"])  # thorough K=9 not validated for the C17 routing: same bound as quick
+_bf["grid"]["CR"] = [1]; _bf["grid_thorough"]["CR"] = [1]  # thorough K=9 validated for the C17 routing (72 s, clean)
 specs["C17"]["jobs"].append(_bf)
 specs["C17"]["explanation"] += " A further BMC job admits bad frames (no storage faults): the bad frame closes the continuous file and every valid frame after it again lands in exactly one properly started file."
 specs["C17"]["assumptions"] = [a.replace("no storage faults, no bad frames", "no storage faults; bad frames only in the bmc_badframes job") for a in specs["C17"]["assumptions"]]
